@@ -750,7 +750,26 @@ func controllerLoopRule(c *Ctx) {
 func knownErrNonNil(p *Program, errv ssa.Value, fs []Fact) bool {
 	k := p.key(errv)
 	for _, f := range fs {
-		if x, trueMeansNonNil, ok := errNilTest(f.Cond); ok && f.Pol == trueMeansNonNil && p.key(x) == k {
+		x, trueMeansNonNil, ok := errNilTest(f.Cond)
+		if !ok || f.Pol != trueMeansNonNil {
+			continue
+		}
+		if p.key(x) == k {
+			return true
+		}
+		// returnCases narrows a returned error Phi to its only non-nil edge: the test was on the Phi
+		others := false
+		hit := false
+		for _, pv := range p.possibleValues(x) {
+			switch {
+			case isNilConst(stripConv(pv)):
+			case stripConv(pv) == stripConv(errv) || p.key(pv) == k:
+				hit = true
+			default:
+				others = true
+			}
+		}
+		if hit && !others {
 			return true
 		}
 	}
